@@ -438,8 +438,26 @@ func Run(s *simrt.Sim) {
 
 	// --- statistics -----------------------------------------------------------------------------
 	if okConns > 0 {
+		// With a chained hop a dial failure happens at the second server: the first one relayed an
+		// (empty) connection and rightly counts it as a session ...
+		// ... and whatever the client of such a connection pushed before the failure came back was
+		// delivered to the next hop and rightly counts as uplink traffic of the first server.
+		var slackUp uint64
+		if chain {
+			for _, sc := range scs {
+				if sc.fail != "" {
+					slackUp += uint64(sc.pLen)
+				}
+			}
+		}
 		var st stats.Server
-		ok := false
+		totalsOK := func() bool {
+			sessionsOK := st.TCPSessions == uint64(okConns) || (chain && st.TCPSessions >= uint64(okConns) && st.TCPSessions <= uint64(nConn))
+			return sessionsOK && st.UplinkBytes >= wantUp && st.UplinkBytes <= wantUp+slackUp && st.DownlinkBytes == wantDown
+		}
+		// The relay records a session after both copy directions ended, which may be after the
+		// client has seen its last byte: poll until the totals are the delivered ones; what is
+		// judged is the state they settle in.
 		for try := 0; try < 50; try++ {
 			code, body, err := e.API("GET", "/servers/in/stats", "")
 			if err != nil || code != 200 {
@@ -451,31 +469,17 @@ func Run(s *simrt.Sim) {
 				s.Fail("c13.api-error", "stats JSON: %v in %q", err, body)
 				return
 			}
-			if st.TCPSessions >= uint64(okConns) {
-				ok = true
+			if totalsOK() {
 				break
 			}
-			s.Sleep(100 * time.Millisecond) // the relay records a session after both copy directions ended
+			s.Sleep(100 * time.Millisecond)
 		}
-		if !ok {
+		if st.TCPSessions < uint64(okConns) {
 			s.Fail("c13.stats-mismatch{sessions}", "%d connections completed but the server reports %d TCP sessions", okConns, st.TCPSessions)
 			return
 		}
 		s.Probe("c13.stats-checked")
-		// With a chained hop a dial failure happens at the second server: the first one relayed an
-		// (empty) connection and rightly counts it as a session.
-		sessionsOK := st.TCPSessions == uint64(okConns) || (chain && st.TCPSessions <= uint64(nConn))
-		// ... and whatever the client of such a connection pushed before the failure came back was
-		// delivered to the next hop and rightly counts as uplink traffic of the first server.
-		var slackUp uint64
-		if chain {
-			for _, sc := range scs {
-				if sc.fail != "" {
-					slackUp += uint64(sc.pLen)
-				}
-			}
-		}
-		if !sessionsOK || st.UplinkBytes < wantUp || st.UplinkBytes > wantUp+slackUp || st.DownlinkBytes != wantDown {
+		if !totalsOK() {
 			s.Fail("c13.stats-mismatch{totals}", "server statistics: sessions=%d uplink=%d downlink=%d; delivered: sessions=%d uplink=%d downlink=%d", st.TCPSessions, st.UplinkBytes, st.DownlinkBytes, okConns, wantUp, wantDown)
 			return
 		}
